@@ -121,6 +121,15 @@ def run(prop, tier, seed):
             v["driver_obj"] = (core.get("viol_drivers") or {}).get(v["driver"])
             viol.append(v)
     drift += core["drift"]
+    # arena values made and dropped between other calls (clear, truncate, allocations through either value)
+    clone = eng_seq.run_suite("clone", tier, seed, mcs)
+    for v in clone["viol"]:
+        if v["prop"] == "C13":
+            v = dict(v)
+            v["sig"] = verdict.signature(v)
+            v["driver_obj"] = (clone.get("viol_drivers") or {}).get(v["driver"])
+            viol.append(v)
+    drift += clone["drift"]
     # multi-threaded clone / drop: teardown scenarios of the concurrent engine
     import check_sync
     tcov, tviol, tdrift = check_sync.run_teardown(tier, seed)
@@ -130,7 +139,7 @@ def run(prop, tier, seed):
     coverage = {
         "states": cov["states"] + sum(r.get("distinct", 0) for r in mcs) + tcov["states"],
         "transitions": cov["transitions"] + sum(r.get("generated", 0) for r in mcs) + tcov["transitions"],
-        "traces_validated_against_impl": cov["drivers"] + core["drivers"] + tcov["drivers"],
+        "traces_validated_against_impl": cov["drivers"] + core["drivers"] + clone["drivers"] + tcov["drivers"],
         "samples": [{"lifetimes": cov["sample"]}, {"core": core["samples"][0]}],
         "evaluations": cov["events"] + core["events"] + tcov["events"],
         "distinct_nontrivial": cov["released_events"] + st["became_segment"] + st["too_small"] + st["top_release"] + st["owned"],
@@ -138,7 +147,7 @@ def run(prop, tier, seed):
                 "replayed on real arenas; plus every release event of the sequential core suite and the concurrent teardown scenarios; non-trivial = "
                 "events at which the backing memory was released + release events that changed the arena + owned handles",
         "exhaustive": False,
-        "lifetime_drivers": cov["drivers"], "core_drivers": core["drivers"], "teardown_drivers": tcov["drivers"],
+        "lifetime_drivers": cov["drivers"], "core_drivers": core["drivers"], "clone_drivers": clone["drivers"], "teardown_drivers": tcov["drivers"],
     }
     assumptions = ["the release of the backing memory is observed at the entry of Memory::unmount (hook); for the Vec backend the buffer is freed with the Memory box right after",
                    "a borrowed handle pins the arena value it borrows (Rust's borrow rules): the model never drops a pinned value"]
